@@ -10,6 +10,110 @@ pub fn oneshot(sub: &str, _rest: &[String], out: &mut dyn Write) -> bool {
             writeln!(out, "{}\t{}", d[0], d[1]).unwrap();
             true
         }
+        // methods : list the builder methods the generated dispatcher knows
+        "methods" => {
+            for (m, k) in crate::gen_builder::METHODS {
+                writeln!(out, "{}\t{}", m, k).unwrap();
+            }
+            true
+        }
+        // rt1 <header> <method>=<arg> ... : builder API -> flags -> builder_from_flags -> flags, bindings of both
+        // (one process per case: clap exits the process on a parse error; exit status 2 then)
+        "rt1" => {
+            let header = dec(&_rest[0]);
+            let mut b1 = bindgen::Builder::default().header(header.clone());
+            for kv in &_rest[1..] {
+                let kv = dec(kv);
+                let (m, a) = kv.split_once('=').unwrap_or((kv.as_str(), ""));
+                b1 = match crate::gen_builder::apply(b1, m, a) {
+                    Ok(b) => b,
+                    Err(e) => {
+                        writeln!(out, "SKIP {}", enc(&e)).unwrap();
+                        return true;
+                    }
+                };
+            }
+            let f1 = b1.command_line_flags();
+            writeln!(out, "FLAGS1 {}", f1.iter().map(|s| enc(s)).collect::<Vec<_>>().join("\t")).unwrap();
+            out.flush().unwrap();
+            let args = std::iter::once("bindgen".to_string()).chain(f1.iter().cloned());
+            let (b2, _, _) = match bindgen::builder_from_flags(args) {
+                Ok(x) => x,
+                Err(e) => {
+                    writeln!(out, "FROMFLAGS-ERR {}", enc(&e.to_string())).unwrap();
+                    return true;
+                }
+            };
+            let f2 = b2.command_line_flags();
+            writeln!(out, "FLAGS2 {}", f2.iter().map(|s| enc(s)).collect::<Vec<_>>().join("\t")).unwrap();
+            out.flush().unwrap();
+            let g = |b: bindgen::Builder| match std::panic::catch_unwind(std::panic::AssertUnwindSafe(|| b.generate())) {
+                Ok(Ok(x)) => format!("OK {}", enc(&x.to_string())),
+                Ok(Err(e)) => format!("ERR {}", enc(&e.to_string())),
+                Err(_) => "PANIC".to_string(),
+            };
+            std::panic::set_hook(Box::new(|_| {}));
+            let o1 = g(b1);
+            let o2 = g(b2);
+            writeln!(out, "SAME_FLAGS {}", (f1 == f2) as u8).unwrap();
+            writeln!(out, "SAME_BINDINGS {}", (o1 == o2) as u8).unwrap();
+            writeln!(out, "OUT1 {}", &o1[..o1.len().min(60)]).unwrap();
+            if o1 != o2 {
+                writeln!(out, "OUT1FULL {}", o1).unwrap();
+                writeln!(out, "OUT2FULL {}", o2).unwrap();
+            }
+            true
+        }
+        // cli0 <header> : flags of the builder the CLI makes from just a header
+        "cli0" => {
+            let args = vec!["bindgen".to_string(), dec(&_rest[0])];
+            match bindgen::builder_from_flags(args.into_iter()) {
+                Ok((b, _, _)) => writeln!(out, "{}", b.command_line_flags().iter().map(|s| enc(s)).collect::<Vec<_>>().join("\t")).unwrap(),
+                Err(e) => writeln!(out, "ERR {}", enc(&e.to_string())).unwrap(),
+            }
+            true
+        }
+        // clirt <header> <flags...> : CLI flags -> builder -> flags -> builder; bindings of both
+        "clirt" => {
+            let mut a0 = vec!["bindgen".to_string(), dec(&_rest[0])];
+            a0.extend(_rest[1..].iter().map(|s| dec(s)));
+            let (b1, _, _) = match bindgen::builder_from_flags(a0.into_iter()) {
+                Ok(x) => x,
+                Err(e) => {
+                    writeln!(out, "REJECTED0 {}", enc(&e.to_string())).unwrap();
+                    return true;
+                }
+            };
+            writeln!(out, "PARSED0").unwrap();
+            let f1 = b1.command_line_flags();
+            writeln!(out, "FLAGS1 {}", f1.iter().map(|s| enc(s)).collect::<Vec<_>>().join("\t")).unwrap();
+            out.flush().unwrap();
+            let args = std::iter::once("bindgen".to_string()).chain(f1.iter().cloned());
+            let (b2, _, _) = match bindgen::builder_from_flags(args) {
+                Ok(x) => x,
+                Err(e) => {
+                    writeln!(out, "FROMFLAGS-ERR {}", enc(&e.to_string())).unwrap();
+                    return true;
+                }
+            };
+            let f2 = b2.command_line_flags();
+            writeln!(out, "FLAGS2 {}", f2.iter().map(|s| enc(s)).collect::<Vec<_>>().join("\t")).unwrap();
+            std::panic::set_hook(Box::new(|_| {}));
+            let g = |b: bindgen::Builder| match std::panic::catch_unwind(std::panic::AssertUnwindSafe(|| b.generate())) {
+                Ok(Ok(x)) => format!("OK {}", enc(&x.to_string())),
+                Ok(Err(e)) => format!("ERR {}", enc(&e.to_string())),
+                Err(_) => "PANIC".to_string(),
+            };
+            let o1 = g(b1);
+            let o2 = g(b2);
+            writeln!(out, "SAME_FLAGS {}", (f1 == f2) as u8).unwrap();
+            writeln!(out, "SAME_BINDINGS {}", (o1 == o2) as u8).unwrap();
+            if o1 != o2 {
+                writeln!(out, "OUT1FULL {}", &o1[..o1.len().min(3000)]).unwrap();
+                writeln!(out, "OUT2FULL {}", &o2[..o2.len().min(3000)]).unwrap();
+            }
+            true
+        }
         // cargocb <depfile|-> <formatter none|rustfmt|prettyplease> <header> [clang args...]
         // runs a real generation with CargoCallbacks plus a recording callback; stdout carries the
         // cargo lines (printed by bindgen itself) and "CB <kind> <percent-encoded arg>" lines.
